@@ -164,7 +164,10 @@ def run(tier, seed, replay=None):
     nb = len(cases)
     feats = Counter()
     for i in range(nprog):
-        prog, f = G.generate(C.Rng(r.next()), [0.5, 1.0, 1.0, 1.6][i % 4])
+        if i % 4 == 1:
+            prog, f = G.callshape_program(C.Rng(r.next()))       # calling-convention boundary stream (small frames)
+        else:
+            prog, f = G.generate(C.Rng(r.next()), [0.5, 1.0, 1.0, 1.6][i % 4])
         feats.update(f)
         for _ in range(2):
             data, files = G.gen_input(r)
